@@ -64,7 +64,7 @@ fn tx_1_2_1(features: KernelFeatures) -> Transaction {
 }
 
 proof! {
-	[zeroize] fn pool_refuses_low_fee() {
+	[zeroize, clock] fn pool_refuses_low_fee() {
 		env::set_chain_type(grin_core::global::ChainTypes::Mainnet);
 		env::set_nrd_enabled(false);
 		let base: u64 = nd::any();
@@ -99,7 +99,7 @@ proof! {
 }
 
 proof! {
-	[zeroize] fn pool_refuses_nrd_unless_enabled_and_hf3() {
+	[zeroize, clock] fn pool_refuses_nrd_unless_enabled_and_hf3() {
 		env::set_chain_type(grin_core::global::ChainTypes::Mainnet);
 		let enabled: bool = nd::any();
 		env::set_nrd_enabled(enabled);
